@@ -298,17 +298,8 @@ class RBFEvaluator(FuncEvaluator, XCEvalSerializable):
             assert isinstance(kernel, DiffRBF)
             scale = 1.0
         if isinstance(kernel, SubsetRBF):
-            if isinstance(kernel.indexes, slice):
-                i = kernel.indexes
-                start = i.start
-                step = i.step if i.step is not None else 1
-                stop = (
-                    i.stop
-                    if i.stop is not None
-                    else (len(kernel.length_scale) + i.start) // step
-                )
-                indexes = [i for i in range(start, stop, step)]
-            indexes = np.array(indexes, dtype=np.int32)
+            indexes = np.arange(X1ctrl.shape[-1], dtype=np.int32)[kernel.indexes]
+            X1ctrl = X1ctrl[..., indexes]
         else:
             indexes = np.arange(len(kernel.length_scale), dtype=np.int32)
         self._X1ctrl = np.ascontiguousarray(X1ctrl)
@@ -318,21 +309,23 @@ class RBFEvaluator(FuncEvaluator, XCEvalSerializable):
         self._indexes = np.ascontiguousarray(indexes)
 
     def __call__(self, X1, res=None, dres=None):
-        X1 = np.ascontiguousarray(X1[..., self._indexes])
+        X1full = X1
+        X1 = np.ascontiguousarray(X1full[..., self._indexes])
         if res is None:
             res = np.zeros(X1.shape[0])
         elif res.shape != (X1.shape[-2],):
             raise ValueError
         if dres is None:
-            dres = np.zeros(X1.shape)
-        elif dres.shape != X1.shape:
+            dres = np.zeros(X1full.shape)
+        elif dres.shape != X1full.shape:
             raise ValueError
+        dsub = np.zeros(X1.shape)
         n = X1.shape[-2]
-        for arr in [res, dres, X1]:
+        for arr in [res, dsub, X1]:
             assert arr.flags.c_contiguous
         self._fn(
             res.ctypes.data_as(ctypes.c_void_p),
-            dres.ctypes.data_as(ctypes.c_void_p),
+            dsub.ctypes.data_as(ctypes.c_void_p),
             X1.ctypes.data_as(ctypes.c_void_p),
             self._X1ctrl.ctypes.data_as(ctypes.c_void_p),
             self._alpha.ctypes.data_as(ctypes.c_void_p),
@@ -341,6 +334,7 @@ class RBFEvaluator(FuncEvaluator, XCEvalSerializable):
             ctypes.c_int(self._nctrl),
             ctypes.c_int(self._nfeat),
         )
+        dres[..., self._indexes] += dsub
         return res, dres
 
 
